@@ -489,7 +489,7 @@ InvNames == UniqueNormalisedNames(st)
 InvTags  == TagsPointIntoScope(st)
 InvIds   == \A t \in Live(st) : \A x \in SymsOf(st, t) :
                Cardinality({y \in AllSyms(st) : y.id = x.id}) = 1
-InvRefusal == last.out = "exc" => TRUE   \* (refusals are UNCHANGED st by construction; see StepOK)
+\* (RefusalAtomic: a refused Eff returns S itself; StepOK checks post = pre)
 
 \* binding A: every reachable state once, with its complete alphabet
 DumpState == PrintT("ST " \o ToJson([d |-> depth, st |-> st, ops |-> Ops(st)]))
